@@ -637,6 +637,61 @@ func guardsAt(b *ssa.BasicBlock) []Guard {
 			}
 			if edgeDominates(d, s, b) {
 				out = append(out, Guard{Cond: ifi.Cond, Branch: si == 0, If: ifi})
+				out = append(out, expandPhiGuard(ifi.Cond, si == 0, ifi, 0)...)
+			}
+		}
+	}
+	return out
+}
+
+// expandPhiGuard: a materialised short-circuit `t = phi [.: false, P: c] #&&` taken true means c was true and
+// control passed through P (so P's own dominating guards hold as well); dually for || taken false.
+func expandPhiGuard(cond ssa.Value, branch bool, ifi *ssa.If, depth int) []Guard {
+	if depth > 4 {
+		return nil
+	}
+	for {
+		u, ok := cond.(*ssa.UnOp)
+		if !ok || u.Op != token.NOT {
+			break
+		}
+		cond, branch = u.X, !branch
+	}
+	phi, ok := cond.(*ssa.Phi)
+	if !ok {
+		return nil
+	}
+	var konst string
+	switch {
+	case phi.Comment == "&&" && branch:
+		konst = "false"
+	case phi.Comment == "||" && !branch:
+		konst = "true"
+	default:
+		return nil
+	}
+	idx := -1
+	for i, e := range phi.Edges {
+		if k, ok := e.(*ssa.Const); ok && k.Value != nil && k.Value.String() == konst {
+			continue
+		}
+		if idx >= 0 {
+			return nil
+		}
+		idx = i
+	}
+	if idx < 0 {
+		return nil
+	}
+	out := []Guard{{Cond: phi.Edges[idx], Branch: branch, If: ifi}}
+	out = append(out, expandPhiGuard(phi.Edges[idx], branch, ifi, depth+1)...)
+	pred := phi.Block().Preds[idx]
+	out = append(out, guardsAt(pred)...)
+	// the edge into pred itself
+	for _, pp := range pred.Preds {
+		if len(pred.Preds) == 1 && len(pp.Instrs) > 0 {
+			if pif, ok := pp.Instrs[len(pp.Instrs)-1].(*ssa.If); ok && pp.Succs[0] != pp.Succs[1] {
+				out = append(out, Guard{Cond: pif.Cond, Branch: pp.Succs[0] == pred, If: pif})
 			}
 		}
 	}
